@@ -4,4 +4,4 @@ From Coq Require Import ZArith NArith List String.
 From RC Require Import lib.PyStr lib.Name model.SolFileC06 model.SolWfC06.
 Extraction Language OCaml.
 Extraction "../build/ocaml/C06/model.ml" N.succ Z.succ Pos.succ Nat.add
-  write load load_entries edges ver_ok spec_ok extra_ok req_lex wf_multi wf_single canon.
+  write load load_entries edges ver_ok spec_ok extra_ok req_lex wf_multi wf_single wf_auto o_multi canon.
